@@ -76,6 +76,7 @@ type Trace struct {
 	CIFolded          int // literal matched only by case folding
 	NonEmptyFailed    int
 	NamedElidedMatch  int // a leaf matched a token of an elided type
+	EOFMatched        int // an explicit EOF reference matched
 }
 
 // Env is one evaluation.
@@ -208,6 +209,17 @@ func (e *Env) leaf(r int, pred func(t lexer.Token) bool) res {
 	return res{st: stNoMatch}
 }
 
+// leafEOF matches the end of input: elided tokens in front of EOF are skipped,
+// EOF itself is never consumed (it can be matched again).
+func (e *Env) leafEOF(r int) res {
+	i := e.nx(r)
+	if e.T[i].Type != lexer.EOF {
+		return res{st: stNoMatch}
+	}
+	e.Tr.EOFMatched++
+	return res{st: stMatch, r: i, vals: []interface{}{""}, nvals: 1, first: i}
+}
+
 func (e *Env) eval(p *Prod, x *Expr, r int) res {
 	if !e.step() {
 		return res{st: stFail, r: r}
@@ -235,6 +247,9 @@ func (e *Env) eval(p *Prod, x *Expr, r int) res {
 			return eq
 		})
 	case "ref":
+		if x.Typ == "EOF" {
+			return e.leafEOF(r)
+		}
 		want := e.Sym[x.Typ]
 		return e.leaf(r, func(t lexer.Token) bool { return t.Type == want })
 	case "seq":
